@@ -1809,10 +1809,12 @@ async def async_select_or_reject(
     lookup_attr: bool,
 ) -> "t.AsyncIterator[V]":
     if value:
-        func = prepare_select_or_reject(context, args, kwargs, modfunc, lookup_attr)
+        func = prepare_select_or_reject(
+            context, args, kwargs, lambda x: x, lookup_attr
+        )
 
         async for item in auto_aiter(value):
-            if func(item):
+            if modfunc(await auto_await(func(item))):
                 yield item
 
 
